@@ -374,6 +374,16 @@ func (s *Storer) GetRdbWriter(r io.Reader, offset int64, rdbSize int64) (*RdbWri
 func (s *Storer) newRdbWCloseObserver(w *RdbWriter, rdb *dataSetRdb) func(args ...interface{}) {
 	return func(args ...interface{}) {
 		rdb.DelWriter(w)
+		// the writer was closed before the whole snapshot was received : its file is removed,
+		// the data set must not offer it any more
+		if len(args) > 2 {
+			if incomplete, ok := args[2].(bool); ok && incomplete {
+				ds := s.getDataSet()
+				if ds.GetRdb() == rdb {
+					ds.SetRdb(nil)
+				}
+			}
+		}
 	}
 }
 
